@@ -1264,6 +1264,10 @@ func c11ReplayStub(t *testing.T, name string) {
 
 func TestVerif_C11_Order(t *testing.T)      { c11ReplayStub(t, "c11-replay-stub-audit-order") }
 func TestVerif_C11_FileDevice(t *testing.T) { c11ReplayStub(t, "c11-replay-stub-audit-file") }
+func TestVerif_C11_BrokerStages(t *testing.T) {
+	c11ReplayStub(t, "c11-replay-stub-audit-broker-stages")
+}
+func TestVerif_C11_Lifecycle(t *testing.T) { c11ReplayStub(t, "c11-replay-stub-audit-lifecycle") }
 func TestVerif_C11_DeviceFaults(t *testing.T) {
 	c11ReplayStub(t, "c11-replay-stub-audit-device-faults")
 }
